@@ -593,7 +593,12 @@ def input_guards(repo, col, R):
     conv = [c for c in ex.calls if isinstance(c.func, ast.Attribute) and c.func.attr == "_get_external_input"]
     if not conv:
         raise AnalysisError("Module.step no longer converts the stimulus with _get_external_input")
-    g_ = [has(g, "i") for g in ex.stmt_guards.get(id(_stmt_of(fi.node, conv[0])), ())]
+    st_ = _stmt_of(fi.node, conv[0])
+    g_ = [has(g, "i") for g in ex.stmt_guards.get(id(st_), ())]
+    # ... or inside a conditional expression of that statement:  `convert(...) if "i" in externals else 0.0`
+    for test_, pol_ in _expr_guards(st_, conv[0]):
+        h_ = has(ex.term(test_), "i")
+        g_.append(None if h_ is None else (h_ if pol_ else not h_))
     g_ = [x for x in g_ if x is not None]
     col.check(g_ == [True], R, fi, "the stimulus enters the step iff the inputs have an entry `i`", "if 'i' in externals",
               f"the stimulus conversion runs under {'the NEGATED test' if g_ == [False] else 'no test'} of `'i' in externals`: "
@@ -632,6 +637,22 @@ def input_guards(repo, col, R):
               "no statement writes the clamp values of `v` into the state: a voltage clamp has no effect", node=fi.node)
     col.check(n_gen >= 1, R, fi, "Module.step applies the clamps of channel and synapse states", "u[key].at[inds].set(externals[key])",
               "no statement writes the clamp values of channel / synapse states into the state: such clamps have no effect", node=fi.node)
+
+
+def _expr_guards(stmt, node):
+    """the tests of the conditional expressions of `stmt` under which `node` is evaluated: [(test, True if in the body / False if in orelse)]"""
+    out = []
+
+    def rec(x, acc):
+        if x is node:
+            out.extend(acc)
+            return True
+        if isinstance(x, ast.IfExp):
+            return rec(x.body, acc + [(x.test, True)]) or rec(x.orelse, acc + [(x.test, False)]) or rec(x.test, acc)
+        return any(rec(c, acc) for c in ast.iter_child_nodes(x))
+    if stmt is not None:
+        rec(stmt, [])
+    return out
 
 
 def _stmt_of(fn, node):
